@@ -92,6 +92,9 @@ type vf18Sandbox struct {
 	baseOK  bool
 	hasBase bool
 	baseVer string // version current-manifest named when the journal of the last apply was written
+	baseRes map[int]string // what each artifact path of that apply resolved to (bytes read through the path)
+	clean   bool           // no operator edit since then
+	aux     [vf18NPaths]string
 }
 
 // ---- fake Commander + Reporter (one per operation) ----
@@ -270,6 +273,12 @@ func vf18NewSandbox(root string, key, wrong *ecdsa.PrivateKey, pubPEM []byte) (*
 	}
 	sb.paths = [vf18NPaths]string{filepath.Join(inst, "a0"), filepath.Join(inst, "a1"), filepath.Join(inst, "a2"),
 		filepath.Join(inst, "sub", "a3"), filepath.Join(inst, "newdir", "a4")}
+	if err := os.MkdirAll(filepath.Join(root, "aux"), 0o755); err != nil {
+		return nil, err
+	}
+	for i := range sb.aux {
+		sb.aux[i] = filepath.Join(root, "aux", "x"+strconv.Itoa(i)) // outside every artifact directory
+	}
 	if err := os.WriteFile(filepath.Join(root, "keys", "cosign.pub"), pubPEM, 0o644); err != nil {
 		return nil, err
 	}
@@ -326,11 +335,66 @@ func vf18GoMode(u int) os.FileMode {
 	return m
 }
 
-func vf18Content(c int) []byte { return []byte("C" + strconv.Itoa(c) + "\n") }
+// content id 0 is the empty file
+func vf18Content(c int) []byte {
+	if c == 0 {
+		return []byte{}
+	}
+	return []byte("C" + strconv.Itoa(c) + "\n")
+}
+
+func vf18ContentID(b []byte) string {
+	s := string(b)
+	if s == "" {
+		return "0"
+	}
+	if strings.HasPrefix(s, "C") && strings.HasSuffix(s, "\n") {
+		if n, err := strconv.Atoi(s[1 : len(s)-1]); err == nil && n > 0 && "C"+strconv.Itoa(n)+"\n" == s {
+			return strconv.Itoa(n)
+		}
+	}
+	return "?"
+}
+
+// node ids: 0..4 artifact paths, 100..104 auxiliary files outside the artifact directories
+func (sb *vf18Sandbox) pathOf(id int) (string, bool) {
+	switch {
+	case id >= 0 && id < vf18NPaths:
+		return sb.paths[id], true
+	case id >= 100 && id < 100+vf18NPaths:
+		return sb.aux[id-100], true
+	}
+	return "", false
+}
+
+func (sb *vf18Sandbox) idOfPath(p string) (int, bool) {
+	for i := 0; i < vf18NPaths; i++ {
+		if sb.paths[i] == p {
+			return i, true
+		}
+		if sb.aux[i] == p {
+			return 100 + i, true
+		}
+	}
+	return 0, false
+}
+
+// bytes read THROUGH the path (symlinks followed); "x" when that fails
+func (sb *vf18Sandbox) resolved(id int) string {
+	p, _ := sb.pathOf(id)
+	b, err := os.ReadFile(p)
+	if err != nil {
+		return "x"
+	}
+	return vf18ContentID(b)
+}
 
 // spec: r<c>.<octal> | s<t> | d | x
 func (sb *vf18Sandbox) setFile(p int, spec string) error {
-	path := sb.paths[p]
+	path, ok := sb.pathOf(p)
+	if !ok {
+		return fmt.Errorf("bad node id %d", p)
+	}
 	_ = os.RemoveAll(path)
 	if spec == "x" {
 		return nil
@@ -342,6 +406,10 @@ func (sb *vf18Sandbox) setFile(p int, spec string) error {
 	case 'd':
 		return os.Mkdir(path, 0o755)
 	case 's':
+		t, _ := strconv.Atoi(spec[1:])
+		if tp, ok := sb.pathOf(t); ok {
+			return os.Symlink(tp, path)
+		}
 		return os.Symlink("T"+spec[1:], path)
 	case 'r':
 		parts := strings.SplitN(spec[1:], ".", 2)
@@ -356,26 +424,23 @@ func (sb *vf18Sandbox) setFile(p int, spec string) error {
 }
 
 func (sb *vf18Sandbox) readFile(p int) string {
-	info, err := os.Lstat(sb.paths[p])
+	path, _ := sb.pathOf(p)
+	info, err := os.Lstat(path)
 	if err != nil {
 		return "x"
 	}
 	switch {
 	case info.Mode()&os.ModeSymlink != 0:
-		t, _ := os.Readlink(sb.paths[p])
+		t, _ := os.Readlink(path)
+		if id, ok := sb.idOfPath(t); ok {
+			return "s" + strconv.Itoa(id)
+		}
 		return "s" + strings.TrimPrefix(t, "T")
 	case info.IsDir():
 		return "d"
 	case info.Mode().IsRegular():
-		b, _ := os.ReadFile(sb.paths[p])
-		s := string(b)
-		c := "?"
-		if strings.HasPrefix(s, "C") && strings.HasSuffix(s, "\n") {
-			if _, err := strconv.Atoi(s[1 : len(s)-1]); err == nil {
-				c = s[1 : len(s)-1]
-			}
-		}
-		return "r" + c + "." + strconv.FormatInt(int64(vf18UnixMode(info.Mode())), 8)
+		b, _ := os.ReadFile(path)
+		return "r" + vf18ContentID(b) + "." + strconv.FormatInt(int64(vf18UnixMode(info.Mode())), 8)
 	}
 	return "?"
 }
@@ -456,7 +521,7 @@ func (sb *vf18Sandbox) phase() string {
 }
 
 func (sb *vf18Sandbox) observe(res, mon string) string {
-	return sb.observeVer(res, mon, "-")
+	return sb.observeVer(res, mon, "-", "-")
 }
 
 func (sb *vf18Sandbox) curVersion() string {
@@ -468,7 +533,7 @@ func (sb *vf18Sandbox) curVersion() string {
 	return "?"
 }
 
-func (sb *vf18Sandbox) observeVer(res, mon, ver string) string {
+func (sb *vf18Sandbox) observeVer(res, mon, ver, rm string) string {
 	cur := "?"
 	if m, err := ParseManifestFile(filepath.Join(sb.runner.StateRoot, "current-manifest.yaml")); err == nil {
 		cur = vf18VerID(m.OsvbngVersion)
@@ -496,7 +561,14 @@ func (sb *vf18Sandbox) observeVer(res, mon, ver string) string {
 		}
 		sns = strings.Join(parts, "+")
 	}
-	return fmt.Sprintf("%s j=%s cur=%s sn=%s fs=%s mon=%s ver=%s", res, sb.phase(), cur, sns, strings.Join(sb.dump(), ","), mon, ver)
+	ax := make([]string, vf18NPaths)
+	rv := make([]string, vf18NPaths)
+	for i := 0; i < vf18NPaths; i++ {
+		ax[i] = sb.readFile(100 + i)
+		rv[i] = sb.resolved(i)
+	}
+	return fmt.Sprintf("%s j=%s cur=%s sn=%s fs=%s ax=%s rv=%s mon=%s ver=%s rm=%s", res, sb.phase(), cur, sns,
+		strings.Join(sb.dump(), ","), strings.Join(ax, ","), strings.Join(rv, ","), mon, ver, rm)
 }
 
 // ---- tarball construction ----
@@ -669,6 +741,9 @@ func (sb *vf18Sandbox) buildTarball(kv map[string]string, arts []vf18Art) (strin
 		if tam == "nosrc" && i == len(arts)-1 {
 			src = "absent-member"
 		}
+		if tam == "dupman" && i == 1 {
+			src = "m0" // one member listed twice in the manifest (the generator gives both artifacts the same content)
+		}
 		fmt.Fprintf(&y, "  - path: %s\n    source: %s\n    sha256: %s\n", sb.paths[a.p], src, digestOf(i))
 		switch a.mode {
 		case "e":
@@ -678,6 +753,28 @@ func (sb *vf18Sandbox) buildTarball(kv map[string]string, arts []vf18Art) (strin
 			fmt.Fprintf(&y, "    mode: \"%s\"\n", a.mode)
 		}
 		fmt.Fprintf(&y, "    uid: -1\n    gid: -1\n    requires_restart: %s\n", rc)
+		if i == 0 && strings.HasPrefix(tam, "dup") && tam != "dupman" {
+			// the same member name twice in the archive; the later entry is what a correct extractor ends up with
+			good := memberBody(0)
+			long := append(append([]byte{}, good...), []byte("-TAIL-OF-A-LONGER-FIRST-BODY\n")...)
+			short := []byte{}
+			if len(good) == 0 {
+				short = []byte("J")
+			}
+			switch tam {
+			case "dupl": // longer wrong body first, vouched body second: admissible
+				members = append(members, vf18Member{name: "m0", body: long}, vf18Member{name: "m0", body: good})
+			case "dups": // shorter wrong body first
+				members = append(members, vf18Member{name: "m0", body: short}, vf18Member{name: "m0", body: good})
+			case "duplr": // vouched body first, longer wrong body last: digest mismatch
+				members = append(members, vf18Member{name: "m0", body: good}, vf18Member{name: "m0", body: long})
+			case "dupsr":
+				members = append(members, vf18Member{name: "m0", body: good}, vf18Member{name: "m0", body: short})
+			default:
+				members = append(members, vf18Member{name: "m0", body: good})
+			}
+			continue
+		}
 		members = append(members, vf18Member{name: "m" + strconv.Itoa(i), body: memberBody(i)})
 	}
 	hookBody := []byte("#!/bin/sh\nexit 0\n")
@@ -752,6 +849,20 @@ func (sb *vf18Sandbox) monRestored(cur []string) string {
 	return "ok"
 }
 
+// resolved-content monitor: after a reported rollback every artifact path of the upgrade reads (through
+// symlinks) as it did before the upgrade, unless the operator edited something in between
+func (sb *vf18Sandbox) resRestored() string {
+	if !sb.hasBase || !sb.baseOK || !sb.clean {
+		return "na"
+	}
+	for p, want := range sb.baseRes {
+		if sb.resolved(p) != want {
+			return "MIXED"
+		}
+	}
+	return "ok"
+}
+
 func (sb *vf18Sandbox) verRestored() string {
 	if !sb.hasBase || !sb.baseOK {
 		return "na"
@@ -785,6 +896,10 @@ func (sb *vf18Sandbox) doApply(tokens []string) string {
 		opts.ExpectedFrom = vf18Ver(e)
 	}
 	pre := sb.dump()
+	preRes := map[int]string{}
+	for _, a := range arts {
+		preRes[a.p] = sb.resolved(a.p)
+	}
 	preVer := sb.curVersion()
 	_, jidBefore := sb.journal()
 	res := "?"
@@ -826,6 +941,8 @@ func (sb *vf18Sandbox) doApply(tokens []string) string {
 	j, jid := sb.journal()
 	if j != nil && jid != jidBefore { // this apply wrote the journal
 		sb.baseVer = preVer
+		sb.baseRes = preRes
+		sb.clean = true
 		sb.hasBase = true
 		sb.baseOK = j.Phase != "started"
 		sb.base = map[int]string{}
@@ -834,12 +951,17 @@ func (sb *vf18Sandbox) doApply(tokens []string) string {
 		}
 	}
 	now := sb.dump()
-	mon, ver := "-", "-"
+	mon, ver, rm := "-", "-", "-"
 	switch res {
 	case "ok":
 		mon, ver = "ok", "ok"
 		for _, a := range arts {
 			if now[a.p] != vf18ExpectedNew(a) {
+				mon = "MIXED"
+			}
+			// independent of the decoding above: the installed bytes are exactly the bytes whose sha256 the
+			// signed manifest carries (the harness built the manifest digest from vf18Content(a.c))
+			if b, err := os.ReadFile(sb.paths[a.p]); err != nil || vf18Sha(b) != vf18Sha(vf18Content(a.c)) {
 				mon = "MIXED"
 			}
 		}
@@ -849,8 +971,9 @@ func (sb *vf18Sandbox) doApply(tokens []string) string {
 	case "err:rolledback":
 		mon = sb.monRestored(now)
 		ver = sb.verRestored()
+		rm = sb.resRestored()
 	}
-	return sb.observeVer(res, mon, ver)
+	return sb.observeVer(res, mon, ver, rm)
 }
 
 func (sb *vf18Sandbox) doRollback(tokens []string) string {
@@ -877,12 +1000,13 @@ func (sb *vf18Sandbox) doRollback(tokens []string) string {
 			res = "rb:err"
 		}
 	}()
-	mon, ver := "-", "-"
+	mon, ver, rm := "-", "-", "-"
 	if res == "rb:ok" {
 		mon = sb.monRestored(sb.dump())
 		ver = sb.verRestored()
+		rm = sb.resRestored()
 	}
-	return sb.observeVer(res, mon, ver)
+	return sb.observeVer(res, mon, ver, rm)
 }
 
 func vf18RunCase(line, root string, key, wrong *ecdsa.PrivateKey, pubPEM []byte) (out string) {
@@ -952,6 +1076,7 @@ func vf18RunCase(line, root string, key, wrong *ecdsa.PrivateKey, pubPEM []byte)
 			kv := vf18KV(op[1:])
 			p, _ := strconv.Atoi(kv["p"])
 			_ = sb.setFile(p, kv["f"])
+			sb.clean = false
 			segs = append(segs, sb.observe("edited", "-"))
 		default:
 			segs = append(segs, "badop")
